@@ -5,14 +5,14 @@ from props import srvprop
 
 def nontrivial(cfg, ops, results):
     cbs = sum(1 for o in ops if o[0] == 'emit' and o[7] is not None)
-    acks = sum(1 for o in ops if o[0] == 'msg' and isinstance(o[2], str) and o[2][:1] in '36')
+    acks = sum(1 for o in ops if o[0] in ('msg', 'msg_nested') and isinstance(o[2], str) and o[2][:1] in '36')
     return cbs >= 1 and acks >= 1
 
 
 def prop_sig(cfg, ops, mode):
     # structural class of the failing history: an ACK carrying id 0 while a callback slot exists
     for o in ops:
-        if o[0] == 'msg' and isinstance(o[2], str) and o[2][:1] == '3':
+        if o[0] in ('msg', 'msg_nested') and isinstance(o[2], str) and o[2][:1] == '3':
             body = o[2][1:]
             if body.startswith('/'):
                 body = body[body.find(',') + 1:] if ',' in body else ''
@@ -28,7 +28,7 @@ def prop_sig(cfg, ops, mode):
 
 
 def run(chk):
-    k = server_hist.Knobs(n_ops=34, refuse=0.05, actions=0.0)
+    k = server_hist.Knobs(n_ops=34, refuse=0.05, actions=0.0, nested_ack=0.3)
     k.w.update({'emit_cb': 7, 'ack': 8, 'binary': 1.0, 'connect': 4, 'emit': 0.5, 'enter': 0.3, 'leave': 0.1,
                 'close_room': 0.1, 'rooms': 0.1, 'session': 0.1, 'junk': 0.2, 'event': 0.5, 'client_disconnect': 1.5,
                 'disconnect': 1.2, 'close': 1.0})
